@@ -353,6 +353,7 @@ pub fn faithful_neighbourhood() -> Vec<(String, SettingsSpec)> {
     add("root=r", &|s| s.root = "r".into());
     add("alloc=::alloc", &|s| s.alloc = Some("::alloc".into()));
     add("alloc=::a::b", &|s| s.alloc = Some("::a::b".into()));
+    add("alloc=crate::al", &|s| s.alloc = Some("crate::al".into()));
     add("docs=off", &|s| s.docs = false);
     add("derives=none", &|s| s.derives_all.clear());
     add("derives=3", &|s| {
